@@ -60,7 +60,7 @@ class CarrierKit:
             return tuple(vals)
         if c == "readonly":
             return K.readonly(K.farray(vals))
-        if K.sym and c in ("bigendian", "strided", "object_none"):
+        if K.sym and c in ("bigendian", "strided", "object_none", "fortran2d"):
             return K.farray(vals)
         if K.sym:
             base = snp.ndarray.from_list(vals, "float64", owner="caller")
@@ -86,6 +86,8 @@ class CarrierKit:
                 wide = np.full(2 * len(vals) + 1, 123456.0)
                 wide[1::2] = vals
                 return wide[1::2]
+            if c == "fortran2d":
+                return np.asfortranarray(np.array(vals, dtype=float).reshape(2, -1))
             if c == "object_none":
                 return np.array([None if v != v else v for v in vals], dtype=object)
             if c == "float32":
@@ -278,6 +280,9 @@ def jobs(tier):
                 # object array has no numeric dtype to compare in (it raises TypeError on the unchanged tree; callers pass dtype=)
                 continue
             out.append(Carrier(base, data=c, integer=isinstance(base, c03.ValidRange) and c in ("list_none", "tuple_nan")))
+    # the same series as a column-major 2 x 2 array (row-major reading = the logical order): element-wise tests only
+    for base in (c03.GrossRange(4, True), c03.ValidRange(4, "float64", True, False)):
+        out.append(Carrier(base, data="fortran2d"))
     time_bases = [c10.RateOfChange(n), c11.FlatLine(n, 60), c12.Attenuated(n, "range", True), c10.Speed(2),
                   c08.Climatology(2, [M(None, True, False)], prop="C15"), c08.Climatology(2, [M("dayofyear", False, False)], prop="C15"),
                   c03.ValidRange(2, "datetime64", True, False)]
